@@ -220,6 +220,15 @@ def handle : List String → Verdict
         if name == "single" then (quoted .single) <|> (if scriptShape && noComment then none else some "script element broken")
         else if name == "double" then (quoted .double) <|> (if scriptShape && noComment then none else some "script element broken")
         else if name == "backtick" then (quoted .backtick) <|> (if scriptShape && noComment then none else some "script element broken")
+        else if name == "backtick-dollar" then
+          -- the author wrote `$` directly before the expression: the literal is `$` followed by the string, and the
+          -- pair must not open a substitution
+          (match stripPrefix (scriptPrefix ++ [96]) doc with
+           | none => some "unexpected document prefix"
+           | some body =>
+             match lexString .backtick body with
+             | .ok v rest => if v == 36 :: wantRunes s && rest == scriptSuffix then none else some s!"literal value/rest differ: {showResult (.ok v rest)}"
+             | r => some (showResult r)) <|> (if scriptShape && noComment then none else some "script element broken")
         else if name == "bare" then
           (match stripPrefix scriptPrefix doc with
            | none => some "unexpected document prefix"
